@@ -91,9 +91,29 @@ Definition TEMP : path := bytes "ancillary-tmp/"%string.
 Definition MANIFEST_NAME : path := bytes "ancillary_manifest.json"%string.
 Definition IMM : path := bytes "immutable/"%string.
 
-(* AncillaryFilesManifest::compute_hash: sha256 over key, value, key, value ... *)
-Definition manifest_hash (m : manifest) : bt :=
-  BHash SHA256 (flat_map (fun e => [BLit (fst e); snd e]) (m_data m)).
+(* AncillaryFilesManifest::compute_hash: sha256 over key, value, key, value ... fed to the hasher one
+   after the other, WITHOUT separators: what is hashed is the concatenation.  Values are the hex text of
+   digests (ideal terms); a key is bytes, in which an element >= 256 stands for the 64 hex characters of
+   [file_digest (x - 256)] (a path can contain the text of a digest).  Adjacent literal pieces merge. *)
+Definition HEXTOK (c : N) : N := 256 + c.
+Fixpoint key_stream (p : path) (cur : list N) : list bt :=
+  match p with
+  | [] => [BLit (rev cur)]
+  | x :: r => if x <? 256 then key_stream r (x :: cur)
+              else BLit (rev cur) :: file_digest (x - 256) :: key_stream r []
+  end.
+Fixpoint merge_lits (l : list bt) : list bt :=
+  match l with
+  | [] => []
+  | BLit a :: r => match merge_lits r with
+                   | BLit b :: r' => BLit (a ++ b) :: r'
+                   | r' => match a with [] => r' | _ => BLit a :: r' end
+                   end
+  | x :: r => x :: merge_lits r
+  end.
+Definition manifest_stream (m : manifest) : list bt :=
+  merge_lits (flat_map (fun e => key_stream (fst e) [] ++ [snd e]) (m_data m)).
+Definition manifest_hash (m : manifest) : bt := BHash SHA256 (manifest_stream m).
 
 Definition data_ok (f : fs) (e : path * bt) : bool :=
   match lookup f (TEMP ++ fst e) with Some c => bt_eqb (file_digest c) (snd e) | None => false end.
@@ -162,9 +182,18 @@ Record scenario := {
   s_anc : bool;
   s_vk : option N;                 (* ancillary verification key given to the client builder *)
   s_net_known : bool;
+  s_par : N;                       (* DownloadUnpackOptions::max_parallel_downloads *)
   s_imm : imm_locs;                (* per immutable number: the locations in the order they are tried *)
   s_anc_locs : list location;
   s_tbl : mtable }.
+
+(* batch_download_unpack: the first `max_parallel_downloads` tasks are spawned, a further one each time a
+   task ends.  With 0 nothing is ever spawned and the batch "succeeds" at once (pop_up_to_n 0 = [],
+   join_next = None).  With 1 the tasks run one after the other; with more they run concurrently, which
+   this model renders by the sequential order (exact when no task fails and the archives used do not
+   write the same path - the cases the harness runs with more than one download at a time; an aborted
+   batch is modelled apart: [download_unpack_aborted]). *)
+Definition tasks_run (s : scenario) : bool := negb (s_par s =? 0).
 
 Definition download_unpack (s : scenario) : bool * fs :=
   let f0 := s_init s in
@@ -179,14 +208,29 @@ Definition download_unpack (s : scenario) : bool * fs :=
         match s_anc s, s_vk s with
         | true, None => (false, f0)                 (* ancillary task cannot be built *)
         | _, _ =>
-            let (ok1, f1) := run_imm (range_numbers rg) (s_imm s) f0 in
-            let (ok2, f2) := match ok1, s_anc s, s_vk s with
+            let (ok1, f1) := run_imm (if tasks_run s then range_numbers rg else []) (s_imm s) f0 in
+            let (ok2, f2) := match ok1, s_anc s && tasks_run s, s_vk s with
                              | true, true, Some vk => anc_task vk (s_tbl s) (s_anc_locs s) f1
                              | _, _, _ => (ok1, f1)
                              end in
             let f3 := cleanup expected f2 in
             if ok2 then (true, markers (s_net_known s) f3) else (false, f3)
         end
+  | _ => (false, f0)
+  end.
+
+(* max_parallel_downloads > 1, a task fails while the ancillary task is still running: abort_all drops
+   the future of the ancillary task where it is - neither verification nor the removal of its temporary
+   directory takes place - and what its unpacking thread wrote stays.  One schedule class: the immutable
+   tasks as modelled above (ending in failure), the ancillary archive [a] unpacked up to its k-th entry. *)
+Definition download_unpack_aborted (s : scenario) (k : nat) (a : archive) : bool * fs :=
+  let f0 := s_init s in
+  match to_range (s_range s) (s_beacon s) with
+  | Ok rg =>
+      let (ok1, f1) := run_imm (range_numbers rg) (s_imm s) f0 in
+      if ok1 then download_unpack s
+      else (false, cleanup (expected_set f0 (s_beacon s) (s_anc s))
+                     (snd (unpack TEMP {| ar_entries := ar_entries a; ar_fail := Some k |} f1)))
   | _ => (false, f0)
   end.
 
